@@ -13,9 +13,13 @@ CHECKS = {
         "level": "model_checking",
         "text": "Every call of seeded random histories and of the targeted scenario families (failure grid, collision, change-log and index scenarios) is recorded "
                 "from the real engine with the full state before and after; TLC evaluates the sequential reference model Database!Exec on the observed pre-state "
-                "of every call and compares counts, ids, documents, error-or-success, the complete post-state of every collection and the change events.",
+                "of every call and compares counts, ids, documents, error-or-success, the complete post-state of every collection and the change events "
+                "(selection-dependent comparisons only inside the query / sort-key domains of DESIGN.md 8.2-8.3). In the other direction TLC enumerates every "
+                "transition of the bounded model MCDatabase (GenDatabase.tla) and each one is replayed on a fresh real engine; MCDatabase's invariants are "
+                "model checked.",
         "note": ENGINE_NOTE,
-        "technique": "TLA+ reference model of the driver API (Database.tla) evaluated by TLC on traces recorded from the real engine (code->spec trace validation)",
+        "technique": "TLA+ reference model of the driver API (Database.tla): TLC evaluates it on traces recorded from the real engine (code->spec trace validation) and "
+                     "enumerates the transitions of a bounded instance that are replayed on the real engine (spec->code); bounded model checking of the instance",
     },
     "C02": {
         "level": "model_checking",
@@ -31,7 +35,7 @@ CHECKS = {
                 "taker one call at a time. TLC validates calls inside the transaction with Database!Exec on the working catalog and requires the committed catalog to stay "
                 "byte-identical, requires a successful commit to publish exactly the working catalog and a failed commit / abort / end to publish nothing, requires plain "
                 "writes to fail while the transaction is open, and requires every retained snapshot (read-only transaction, earlier catalog, cursor), re-dumped after every "
-                "later step, to be identical. MCTxn checks SnapshotsImmutable, AllOrNothing and NoDirtyRead on Txn.tla.",
+                "later step, to be identical. MCTxn checks SnapshotsImmutable, AllOrNothing and NoDirtyRead on Txn.tla. A second session runs whole transactions through WithTransaction (refused while the slot is held); writers parked behind a session transaction must start from what it published; snapshots are re-dumped across TTL passes.",
         "note": ENGINE_NOTE + " Calls are interleaved one at a time (property text); snapshots are re-dumped through the exported catalog structures.",
         "technique": "TLA+ transaction model (Txn.tla) checked by TLC; code->spec validation of recorded interleaved transaction histories with snapshot re-dumps",
     },
@@ -101,7 +105,7 @@ CHECKS = {
                 "goroutines as a forced interleaving. Fault scenarios (short contexts, failing stores, session commit/abort/end, panicking callbacks, sessions ended "
                 "while StartTransaction waits, collection operations with a session context racing AbortTransaction, streams, Close at random points) run under the "
                 "hooks with seeded yields; TLC validates the hook events (taken under the engine mutex, token hand-over events from the semaphore) against the writer-"
-                "slot protocol; after every scenario a probe write with a deadline must succeed (closed error after Close) and goroutines must return to baseline.",
+                "slot protocol; after every scenario a probe write with a deadline must succeed (closed error after Close) and goroutines must return to baseline. The model also covers EndSession, Watch, Stream.next, Stream.Close and the closing of streams by Engine.Close (stream mutex), with the invariants ClosedUnregistered and DoneFree; a forced interleaving closes the engine while writers are queued.",
         "note": "Trusted: hook placement (add-only one-liners at the lock hand-over sites, build tag verif). Liveness on real code is a bounded-wait observation.",
         "technique": "PlusCal/TLA+ engine protocol model checked by TLC; hook-event traces validated by TLC against the protocol; forced interleavings and fault injection on real goroutines",
     },
@@ -120,7 +124,7 @@ CHECKS = {
                 "upload options, random write partitions incl. empty writes, tracked mode with suspend/resume/claim, aborts, deletes with cleanup) and, in every run, around "
                 "the 16 MiB upload buffer (seven chunk sizes with different remainders, lengths B-1 ... 2B+3); the harness compares bytes; the recorded Write/Suspend steps, "
                 "stored chunk table, file record, leftovers and every step of Read/Skip/Seek scripts are judged by TLC with GridFS.tla at the real sizes; MCGridFS proves "
-                "well-formedness of closed uploads for all small (B, C) and write partitions with suspends.",
+                "well-formedness of closed uploads for all small (B, C) and write partitions with suspends. File-catalog steps (upload under recurring names, download by name and revision or by id, rename, delete, drop) are judged with GridFS!CatStep: result, catalog afterwards, chunks exactly for the catalogued files.",
         "note": "Byte equality is observed in the harness; counts, positions, tables and records are judged by TLC. B is gridfs.UploadBufferSize (or the chunk size if larger).",
         "technique": "TLA+ model of the upload buffer/chunk arithmetic and of the reference reader checked by TLC; code->spec validation of recorded uploads and download scripts",
     },
@@ -149,7 +153,7 @@ CHECKS = {
         "level": "model_checking",
         "text": "Every generated (document, filter) case is evaluated by the real mongokit.Match and by TLC on Query!MatchImpl (all inputs) and, "
                 "inside the core domain of DESIGN.md section 8, on the independent reference QueryRef!MatchRef; the logical laws are evaluated on real "
-                "code over the whole law domain; TLC additionally proves MatchImpl = MatchRef and the laws on a bounded universe exhaustively.",
+                "code over the whole law domain; TLC additionally proves MatchImpl = MatchRef and the laws on a bounded universe exhaustively. $jsonSchema is specified declaratively in Schema.tla (Valid over the keyword subset) and bound to bsonkit.Schema.Evaluate on random (schema, value) pairs and to {$jsonSchema} filters.",
         "note": "Trusted: the tagged encoding of values (harness/enc) and the string table; numbers in $mod/$bits/$size operands stay below 10^9 "
                 "(TLC integers); $jsonSchema keyword subset only.",
         "technique": "TLA+ specification of query semantics (impl-shaped + declarative reference) checked by TLC; code->spec validation of recorded mongokit.Match evaluations",
@@ -186,7 +190,7 @@ CHECKS = {
         "level": "model_checking",
         "text": "TLC checks on BSON.tla that the reference order Cmp is a total preorder consistent with the class order on all pairs and triples of a "
                 "boundary-focused value pool and emits the full sign matrix; bsonkit.Compare is compared with it on every ordered pair (agreement with a "
-                "total preorder on all pairs implies every law on every triple of the pool).",
+                "total preorder on all pairs implies every law on every triple of the pool). Random pairs and triples of nested values and near-equal neighbours are compared by TLC with BSON!Cmp and the order laws are checked on the real results.",
         "note": "Trusted: exact decimal expansions of pool numbers computed with math/big in the harness; the pool is finite (boundary-focused), values outside it are not covered.",
         "technique": "TLA+ reference order checked by TLC; spec->code replay of the full sign matrix against bsonkit.Compare",
     },
@@ -195,7 +199,7 @@ CHECKS = {
         "text": "spec/gen/Robust.tla is the grammar of oddly shaped but well-typed input; TLC enumerates every cell (59 call forms x 40 argument classes x 15 path shapes x "
                 "4 or 10 document shapes) and the harness instantiates each cell and runs it under recover() against bsonkit/mongokit and, for a deterministic sample, "
                 "through the driver API with probe writes and a per-call watchdog; panics seen by the generators of the other checks are collected as well. The only "
-                "asserted outcome is: returns a result or an error, and the next call is served.",
+                "asserted outcome is: returns a result or an error, and the next call is served. A second grid enumerated by TLC covers every combination of call x upsert x match x returned image x projection x sort x session transaction.",
         "note": "The specification contributes the exhaustive grid, not an oracle. Documented panics ('lungo: ...') are excluded.",
         "technique": "TLA+ grammar enumerated exhaustively by TLC (spec->code), every cell replayed on the real code under recover()",
     },
